@@ -30,13 +30,23 @@ Fixpoint common_len (a b : list blk) : nat :=
 
 (* upper bound of the deliveries (Spec/C11_Spec.v [before_site], theorem c11_bound, cut to the
    reference sequence by c11_prefix), and whether the site lies on the path of every run *)
-Definition site_limit (L : layout) (f : fault) (d : list blk) : list blk * bool :=
+(* [nonseq] = the reference run ends at a parent-link break (after exactly d): then a site is
+   on the path of every run only if it is met before the offending block is read *)
+Definition site_limit (L : layout) (f : fault) (d : list blk) (nonseq : bool) : list blk * bool :=
+  let early (b : list blk) := negb nonseq || Nat.leb (length b) (length d) in
   match f with
   | FNone => (d, false)
-  | FExists i => (firstn (common_len (before_site L i 0) d) d, Nat.leb i (nsend L) && (Nat.ltb i (nsend L) || negb (stopped L)))
-  | FOpen i | FHeader i => (firstn (common_len (before_site L i 0) d) d, Nat.ltb i (nsend L))
-  | FRead i k => (firstn (common_len (before_site L i k) d) d,
-                  Nat.ltb i (nsend L) && Nat.leb k (length (file_of L i)))
+  | FExists i =>
+      let b := before_site L i 0 in
+      (firstn (common_len b d) d,
+       Nat.leb i (nsend L) && (Nat.ltb i (nsend L) || negb (stopped L)) && early b)
+  | FOpen i | FHeader i =>
+      let b := before_site L i 0 in
+      (firstn (common_len b d) d, Nat.ltb i (nsend L) && early b)
+  | FRead i k =>
+      let b := before_site L i k in
+      (firstn (common_len b d) d,
+       Nat.ltb i (nsend L) && Nat.leb k (length (file_of L i)) && early b)
   | FPre i k =>
       let lim := firstn (common_len (before_site L i k) d) d in
       (lim, Nat.ltb i (nsend L) && Nat.ltb (length lim) (length d) &&
@@ -70,7 +80,7 @@ Definition c11_model_ok (kind : N) (L : layout) (f : fault) (want : N) (forced :
       if st then (ds, OStop) else (d0, o0)
     else (d0, o0) in
   let mk := map (fun b => (b, c10_tag 0 b)) in
-  let (lim, must0) := site_limit L f d in
+  let (lim, must0) := site_limit L f d (outcome_eqb o ONonSeq) in
   (* a stream ends at the stop block itself: a site behind it need not be reached *)
   let must := if kind =? 2 then
                 match f with FHandler _ => must0 | _ => must0 && Nat.ltb (length lim) (length d) end
